@@ -92,7 +92,7 @@ def cases(ctx):
             ts = ts[rng.permutation(len(ts))]
             yield {"mode": "curve", "kind": kind, "x": x, "y": y, "t": ts, "form": str(rng.choice(["array", "array", "list", "scalar"]))}
         else:
-            pos, neg, kind = gen.scores(rng, min_pos=1, min_neg=1, maxn=15, kinds=["gauss", "lattice", "uniform01", "pool5", "intdtype"])
+            pos, neg, kind = gen.scores(rng, min_pos=1, min_neg=1, maxn=15, kinds=["gauss", "lattice", "uniform01", "pool5", "intdtype", "mixed_int_float", "mixed_f32_f64", "float32"])
             if len(np.unique(np.concatenate([np.asarray(pos, float), np.asarray(neg, float)]))) < 2:
                 continue
             ep, en = gen.easy(rng, cap=20)
@@ -158,7 +158,10 @@ def _tam_once(sess, case, s, m, metric, points, target):
     call = sess.ipl_calls[0] if ok else {}
     if ok:
         gx, gy = np.asarray(call["x"], dtype=float), np.asarray(call["y"], dtype=float)
-        ok = (gx.shape == exp_pts.shape and bool(np.all(np.abs(gx - exp_pts) <= 4 * np.spacing(np.maximum(np.abs(exp_pts), 1.0))))
+        # interior grid points carry rounding in the precision the scores come in (a float32 grid for float32 scores)
+        dts = [a_.dtype for a_ in (np.asarray(s.pos), np.asarray(s.neg)) if a_.dtype.kind == "f"]
+        eps_ = max([float(np.finfo(d_).eps) for d_ in dts] + [float(np.finfo(float).eps)])  # the extremes may come from the narrower class
+        ok = (gx.shape == exp_pts.shape and bool(np.all(np.abs(gx - exp_pts) <= 4 * eps_ * np.maximum(np.abs(exp_pts), 1.0)))
               and np.array_equal(np.asarray(call["t"]), target))
         if ok and isinstance(points, int):
             # "k evenly spaced points spanning the scores": the end points are the extreme scores themselves (the metric jumps there);
